@@ -181,14 +181,16 @@ func (ex *Exec) strBinop(op token.Token, x, y Value) Value {
 			return xs >= ys
 		}
 	}
-	xt, yt := strTerm(x), strTerm(y)
 	switch op {
 	case token.ADD:
-		return SymStr{SeqConcat(xt, yt)}
+		return concatStr([]Value{x, y})
 	case token.EQL:
-		return mkBool(Eq(xt, yt))
+		return ex.strEq(x, y)
 	case token.NEQ:
-		return mkBool(Not(Eq(xt, yt)))
+		return notVal(ex.strEq(x, y))
+	}
+	xt, yt := strTerm(x), strTerm(y)
+	switch op {
 	case token.LSS, token.LEQ, token.GTR, token.GEQ:
 		// lexicographic order over an uninterpreted total order on sequences
 		return ex.strOrder(op, xt, yt)
@@ -450,6 +452,11 @@ func (ex *Exec) conv(tDst, tSrc types.Type, x Value) Value {
 			}
 			return out
 		case SymStr:
+			if xs.B != nil {
+				out := make(Slice, len(xs.B))
+				copy(out, xs.B)
+				return out
+			}
 			n := ex.concretize(SInt(SeqLen(xs.T)))
 			if n > 1<<16 {
 				ex.unsupported("symbolic string too long to materialise")
@@ -565,7 +572,7 @@ func (ex *Exec) bytesToStr(xs Slice) Value {
 		}
 		return string(bs)
 	}
-	return SymStr{ex.seqOfBytes(xs)}
+	return mkStrBytes(xs)
 }
 
 // seqOfBytes builds a Seq term from explicit bytes, grouping concrete runs.
